@@ -129,6 +129,17 @@ def body_fit(E, n, m, npt, spread, base, seed, linear_data):
     if npt <= n + 1:
         for k in range(npt):
             E.prove(E.all([absv(res[k][j]) <= eps * S for j in range(m)]), 'fit:model-reproduces-the-data-at-every-point[npt%sn+1]' % ('=' if npt == n + 1 else '<'))
+        if npt < n + 1:
+            # growing phase: the fit is the minimal-norm one - the Jacobian has no component outside the span of the directions
+            # (which is what lets the full-rank completion add the missing singular directions without touching the data)
+            import numpy as _rnp
+            kc = int(M.kopt)
+            Dm = _rnp.array([[pts_c[k][i] - pts_c[kc][i] for i in range(n)] for k in range(npt) if k != kc])
+            _u, _s, _vt = _rnp.linalg.svd(Dm, full_matrices=True)
+            for v in _vt[npt - 1:, :]:
+                vv = E.arr([float(x) for x in v], 'f')
+                Jv = np.dot(M.model_jac, vv)
+                E.prove(E.all([absv(Jv[j]) <= eps * S / spread for j in range(m)]), 'fit:growing-fit-has-no-component-outside-the-span-of-its-directions')
     else:
         for j in range(m):
             E.prove(absv(sum(res[k][j] for k in range(npt))) <= eps * S * npt, 'fit:regression-residual-orthogonal-to-constant-column')
@@ -136,6 +147,33 @@ def body_fit(E, n, m, npt, spread, base, seed, linear_data):
                 E.prove(absv(sum(res[k][j] * Fraction(pts_c[k][i]) for k in range(npt)) if E.symbolic else
                              sum(res[k][j] * pts_c[k][i] for k in range(npt))) <= eps * S * npt * spread,
                         'fit:regression-residual-orthogonal-to-coordinate-columns')
+    # the same linear system solved WITHOUT the cached factorisation (the documented fallback, e.g. lagrange_gradient(k,
+    # factorise_first=False) after a mutation) gives the same solution for every right-hand side
+    rh = E.vec('rh', npt)
+    if E.symbolic:
+        import numpy as _rnp
+        from .. import shim as _shim
+        from ..arr import SArr as _SArr
+
+        def la(name, args, kw):
+            if name != 'lstsq' or not _shim.all_concrete(args[0]):
+                return NotImplemented
+            P = _rnp.linalg.pinv(_shim.to_numpy(args[0]))
+            B = args[1]
+            Pm = _SArr.from_nested([[float(v) for v in row] for row in P], 'f')
+            return (np.dot(Pm, B), 0, 0, 0)
+        E.hooks(la=la)
+    x_fact = M.solve_geom_system(rh)
+    M.factorisation_current = False
+    try:
+        x_plain = M.solve_geom_system(rh)
+    except Exception as e:    # noqa
+        E.fail('fit:solve-without-cached-factorisation-raises-' + type(e).__name__, detail=str(e)[:200])
+        x_plain = None
+    if x_plain is not None:
+        Sr = sum(absv(rh[k]) for k in range(npt))
+        E.prove(E.all([absv(p_ - q_) <= E.const('1e-6') * Sr * max(1.0, 1.0 / spread) for p_, q_ in zip(E.flat(x_fact), E.flat(x_plain))]),
+                'fit:solve-without-cached-factorisation-agrees-with-the-factorised-solve')
     E.prove(E.all([p == q for p, q in zip(E.flat(M.model_jac_eval_nums), E.flat(M.eval_num[:npt] if npt == num_pts else M.eval_num))]),
             'C11:fit:eval-number-snapshot-is-the-slots-eval-numbers')
     snap = [v for v in E.flat(M.model_jac_eval_nums)]
@@ -143,6 +181,91 @@ def body_fit(E, n, m, npt, spread, base, seed, linear_data):
     E.prove(E.all([p == q for p, q in zip(E.flat(M.model_jac_eval_nums), snap)]), 'C11:fit:eval-number-snapshot-is-a-copy-not-an-alias')
     if linear_data and npt >= n + 1:
         E.prove(E.all([absv(M.model_jac[i, j] - A[i, j]) <= eps * S / spread for i in range(m) for j in range(n)]), 'C11:fit:jacobian-of-linear-residuals-is-A')
+
+
+def _find_fullrank_completion(fn):
+    """from `self.model_jac = dg[1:, :].T` (the fitted Jacobian is stored) up to the statement before `interp_error = ...`:
+    constant term, evaluation-number snapshot and the `if make_full_rank:` completion block that calls the SVD"""
+    import ast
+    from .. import loader
+    start = [i for i, st in enumerate(fn.body) if isinstance(st, ast.Assign) and ast.unparse(st.targets[0]) == 'self.model_jac' and 'dg' in ast.unparse(st.value)]
+    end = [i for i, st in enumerate(fn.body) if isinstance(st, ast.Assign) and ast.unparse(st.targets[0]) == 'interp_error']
+    comp = [i for i, st in enumerate(fn.body) if isinstance(st, ast.If) and ast.unparse(st.test) == 'make_full_rank' and 'svd' in ast.unparse(st)]
+    if len(start) != 1 or len(end) != 1 or len(comp) != 1 or not (start[0] < comp[0] < end[0]):
+        raise loader.AnchorError("interpolate_mini_models_svd: cannot locate the block [store fitted Jacobian .. full-rank completion]")
+    return fn.body[start[0]:end[0]]
+
+
+def body_fullrank(E, n, m, ndirs):
+    """growing phase with make_full_rank=True.  The completion block (sliced from interpolate_mini_models_svd) runs on ANY fitted
+    Jacobian J = U diag(s) Vt (U, Vt orthonormal, s sorted; the factors are the symbolic inputs, the SVD call returns them):
+    on the singular directions it has data for (i < r = number of directions) the completed Jacobian acts exactly as J did, whenever
+    the smallest known singular value is not below the conditioning floor.  Together with 'the growing fit has no component outside
+    the span of its directions' (fit harnesses) this is 'the data are still interpolated'."""
+    import ast
+    from .. import loader
+    np = E.np
+    kk = min(n, m)
+    U = E.mat('U', m, kk)
+    sv = E.vec('sv', kk, lo=0, hi=10 ** 6)
+    Vt = E.mat('Vt', kk, n)
+    for i in range(kk):
+        for j in range(i, kk):
+            E.assume(E.eq(np.dot(U[:, i], U[:, j]), 1 if i == j else 0, tol=1e-6))
+            E.assume(E.eq(np.dot(Vt[i, :], Vt[j, :]), 1 if i == j else 0, tol=1e-6))
+    for i in range(kk - 1):
+        E.assume(sv[i] >= sv[i + 1])
+    r = min(ndirs, n, m)
+    J = sum(np.outer(U[:, i], Vt[i, :]) * sv[i] for i in range(kk)) if not E.symbolic else None
+    if E.symbolic:
+        from ..arr import SArr
+        J = SArr.from_nested([[sum(U[a, i] * sv[i] * Vt[i, b] for i in range(kk)) for b in range(n)] for a in range(m)], 'f')
+
+        def la(name, args, kw):
+            if name == 'svd':
+                return U, sv, Vt
+            if name == 'diagsvd':
+                s_ = args[0]
+                return SArr.from_nested([[s_[i] if i == j else 0.0 for j in range(kk)] for i in range(kk)], 'f')
+            return NotImplemented
+        E.hooks(la=la)
+    Model = E.get('Model')
+    big = 1e20
+    M = Model(n + 1, E.arr([0.0] * n, 'f'), E.arr([0.0] * m, 'f'), E.arr([-big] * n, 'f'), E.arr([big] * n, 'f'), [], 1, do_logging=False)
+    M.npt_so_far = ndirs + 1
+    # the solution of the interpolation system: value of each residual model at the incumbent (first row) and its gradient (J)
+    cval = E.vec('c', m, lo=-10 ** 6, hi=10 ** 6)
+    xopt = E.vec('xo', n, lo=-100, hi=100)       # the incumbent relative to the base point: ANY vector (the base need not be a point of the set)
+    if E.symbolic:
+        dg = SArr.from_nested([[cval[a] for a in range(m)]] + [[J[a, b] for a in range(m)] for b in range(n)], 'f')
+    else:
+        dg = np.vstack([cval.reshape((1, m)), J.T])
+    fn = loader.find_def('model', 'Model.interpolate_mini_models_svd')
+    names = [a.arg for a in fn.args.args]
+    defaults = dict(zip(names[-len(fn.args.defaults):], [ast.literal_eval(d) for d in fn.args.defaults]))
+    env = dict(self=M, make_full_rank=True, min_sing_val=E.const(defaults['min_sing_val']), sing_val_frac=E.const(defaults['sing_val_frac']),
+               max_jac_cond=E.const(defaults['max_jac_cond']), dg=dg, xopt=xopt, verbose=False, get_chg_J=False, throw_error_on_nans=False,
+               norm_J_error=E.const(0), linalg_resid=E.const(0))
+    blk = E.make_step('model', 'Model.interpolate_mini_models_svd', _find_fullrank_completion, '__fullrank', False)
+    try:
+        blk(env)
+    except loader._Return:
+        E.reach('fullrank:fit-refused')
+        return
+    J2 = M.model_jac
+    premise = E.all([sv[r - 1] * 10 ** 8 >= sv[0] * 2, sv[r - 1] >= E.const('2e-6')])
+    for i in range(r):
+        a1 = np.dot(J2, Vt[i, :])
+        a0 = sv[i] * U[:, i]
+        E.prove(E.implies(premise, E.all([E.eq(a1[j], a0[j], tol=1e-5) for j in range(m)])),
+                'fullrank:completion-leaves-the-fitted-directions-alone')
+    # the first row of the solution is the fitted value at the incumbent: the stored model must still take it there
+    at_opt = M.model_const + np.dot(J2, xopt)
+    E.prove(E.implies(premise, E.all([E.eq(at_opt[j], cval[j], tol=1e-4) for j in range(m)])),
+            'fullrank:completed-model-keeps-the-fitted-value-at-the-incumbent')
+    for i in range(r, kk):
+        a1 = np.dot(J2, Vt[i, :])
+        E.prove(np.dot(a1, a1) > 0, 'fullrank:completion-gives-unknown-directions-a-positive-singular-value')
 
 
 def body_shift(E, n, m):
@@ -217,6 +340,14 @@ def harnesses(tier, seed):
         hs.append(Harness("shift-invariance[n=%d,m=%d]" % (n, m), 'dfverif.checks.c16', 'body_shift', params=dict(n=n, m=m),
                           cfg=core.Cfg(fork_queries=True, qtimeout_ms=60000), functions=FUNCS, bounds="n=%d, m=%d, everything symbolic" % (n, m),
                           assumptions=["real arithmetic (polynomial identities)"], expect=['shift:gradient-of-full-model-unchanged'], nproc=1))
+    for (n, m, ndirs) in ([(2, 2, 1), (3, 2, 2), (2, 3, 1)] if tier == 'quick' else [(2, 2, 1), (3, 2, 2), (2, 3, 1), (3, 3, 1), (3, 3, 2), (4, 2, 2), (3, 1, 1)]):
+        hs.append(Harness("fullrank-completion[n=%d,m=%d,directions=%d]" % (n, m, ndirs), 'dfverif.checks.c16', 'body_fullrank',
+                          params=dict(n=n, m=m, ndirs=ndirs),
+                          cfg=core.Cfg(fork_queries=True, qtimeout_ms=(60000 if tier == 'quick' else 240000), portfolio=True, portfolio_s=60, portfolio_logic='QF_NRA'), functions=FUNCS,
+                          bounds="growing phase, n=%d, m=%d, %d direction(s): the sliced full-rank completion block on ANY Jacobian given by orthonormal factors U, Vt and sorted s in [0,1e6]" % (n, m, ndirs),
+                          assumptions=["scipy.linalg.svd returns the symbolic factors the Jacobian was built from (any SVD of any matrix); parameters = the function's own defaults (read from the AST)",
+                                       "premise: smallest known singular value >= 2e-6 and >= 2e-8 * largest (otherwise the conditioning floor changes known directions by design)"],
+                          expect=['fullrank:completion-leaves-the-fitted-directions-alone'], nproc=1, wall_budget=400))
     hs.append(Harness("shift-binary64", 'dfverif.checks.c16', 'body_shift_fp', params={}, cfg=core.Cfg(fork_queries=True, qtimeout_ms=120000, logic='QF_FP'),
                       functions=['model.Model.shift_base'], bounds="IEEE binary64, one coordinate, |base| <= 1e9, offsets and shift in [-1,1]",
                       assumptions=["finite inputs"], expect=['shift:offsets-move-by-one-rounded-subtraction'], nproc=1))
